@@ -1,7 +1,7 @@
 (* C17 — Config-expression parser is total and flattens well-formed input exactly. Statements only.
    The model is a reference implementation of Expr.g4 (lexer with ANTLR's longest-match / first-rule
    tie-breaking, recursive-descent parser, flattening listener), not of the ANTLR runtime. *)
-From LogV Require Import Base.Bytes Base.Utf8 Model.Expr Proofs.ExprProofs.
+From LogV Require Import Base.Bytes Base.Utf8 Model.Expr Proofs.ExprProofs Proofs.LexProofs.
 Open Scope N_scope.
 
 (* the reference parser accepts every token sequence the grammar derives, and returns exactly the
@@ -24,6 +24,19 @@ Print Assumptions c17_lexer_progress.
 Theorem c17_lexer_fuel_irrelevant : forall f1 f2 s, (length s < f1)%nat -> (length s < f2)%nat -> lex f1 s = lex f2 s.
 Proof. exact lex_fuel_irrelevant. Qed.
 Print Assumptions c17_lexer_fuel_irrelevant.
+
+(* maximal munch never needs what follows a token except to stop: a token recognised at the head of any input is
+   recognised again, alone, when the input is cut right after it (all token classes: punctuation, IDENT, STRING with its
+   escapes, INTEGER incl. 0x.., FLOAT with fraction and exponent, and the INTEGER/FLOAT tie-breaking) *)
+Theorem c17_token_relexes : forall s t r0 r, lex_one s = Some (t, r0) -> lex_one (tok_text t ++ 32 :: r) = Some (t, 32 :: r).
+Proof. exact relex_one. Qed.
+Print Assumptions c17_token_relexes.
+
+(* hence the lexer ignores the whitespace layout: whatever an input lexes to, its token texts written one after the other
+   with single spaces lex to the same token sequence *)
+Theorem c17_lexer_layout_insensitive : forall f s ts, lex f s = Some ts -> lex (S (length (render ts))) (render ts) = Some ts.
+Proof. exact lex_normalise. Qed.
+Print Assumptions c17_lexer_layout_insensitive.
 
 (* the result is a map: one entry per key, and a later assignment to the same key wins *)
 Theorem c17_later_assignment_wins : forall l k, lookup_kv (to_map l) k = last_assigned l k None.
